@@ -129,7 +129,54 @@ pub fn expected_response(plan: &Plan, scripts: &[Script]) -> (Vec<u8>, usize, us
     (out, nq, nd)
 }
 
+/// A value that cannot be written (the library refuses a list without items) must fail its message; if the message
+/// succeeds instead, a separator was written for nothing (`7,,9`, `7,`, `HDR `): "no separator ... duplicated or
+/// placed inside a unit".
+fn unformattable_values(cfg: &Cfg, rep: &mut Report) {
+    run_cases(cfg, "unformattable-value", cfg.n(8, 4_000, 200_000), rep, |rng, ctx| {
+        bump(ctx, 1);
+        let empty = || Val::ListI32(vec![]);
+        let scripts = vec![
+            Script { id: 0, omnivore: true, emit: vec![Val::U8(1)], ..Default::default() },
+            Script { id: 1, omnivore: true, emit: vec![Val::U8(7), empty(), Val::U8(9)], ..Default::default() },
+            Script { id: 2, omnivore: true, emit: vec![Val::U8(7), Val::ArrList(arrayvec::ArrayVec::new())], ..Default::default() },
+            Script { id: 3, omnivore: true, headers: vec![b"LIST"], emit: vec![Val::ListI32(vec![])], ..Default::default() },
+            Script { id: 4, omnivore: true, emit: vec![Val::ArrList(arrayvec::ArrayVec::new()), Val::U8(5)], ..Default::default() },
+        ];
+        let specs = vec![Spec::leaf(b"ONE", false, 0), Spec::leaf(b"MIX", false, 1), Spec::leaf(b"TAIL", false, 2), Spec::leaf(b"HEAD", false, 3), Spec::leaf(b"FRONt", false, 4)];
+        let built: Built<Dev, Script> = Built::new(&specs, scripts);
+        let bad: &[u8] = *rng.pick(&[&b"MIX?"[..], b"TAIL?", b"HEAD?", b"FRON?"]);
+        let mut msg: Vec<u8> = Vec::new();
+        for _ in 0..rng.usize(3) {
+            msg.extend_from_slice(b"ONE?;");
+        }
+        msg.extend_from_slice(bad);
+        for _ in 0..rng.usize(3) {
+            msg.extend_from_slice(b";ONE?");
+        }
+        if rng.bool() {
+            msg.push(b'\n');
+        }
+        ctx.nontrivial(hash_bytes(&msg));
+        let mut dev = Dev::new();
+        let mut c = Context::default();
+        let (r, got) = if rng.bool() {
+            let cr = run_cap(512, built.root(), &msg, &mut dev, &mut c).unwrap();
+            (cr.result, cr.buf)
+        } else {
+            let mut resp: Vec<u8> = Vec::new();
+            let r = built.root().run(&msg, &mut dev, &mut c, &mut resp);
+            (r, resp)
+        };
+        match r {
+            Err(e) => ctx.count(&format!("unformattable-value.message-fails-with.{}", e.get_code())),
+            Ok(()) => ctx.violation("C10:separator-written-for-a-value-that-was-not-written", jobj(&[("message", jbytes(&msg)), ("observed", jbytes(&got))])),
+        }
+    });
+}
+
 pub fn run(cfg: &Cfg, rep: &mut Report) {
+    unformattable_values(cfg, rep);
     let ntrees = cfg.n(6, 60_000, 1_200_000);
     let nmsg = cfg.n(8, 100, 250) as usize;
     run_cases(cfg, "framing", ntrees, rep, |rng, ctx| {
